@@ -36,6 +36,8 @@ var comps = []Comp{
 	{"messengers.has", []string{SBV(32)}, SBool}, {"messengers.addr", []string{SBV(32)}, SBytes}, {"messengers.dom", []string{SBV(32)}, SBV(32)},
 	// ghost cardinal of the attester collection (number of raw keys under its prefix)
 	{"nAtt", nil, SBV(64)},
+	// the attester collection as the ordered list its prefix range yields (Attester strings; "" beyond nAtt)
+	{"attList", []string{SBV(64)}, SBytes},
 }
 
 var compByName = map[string]*Comp{}
@@ -206,6 +208,10 @@ func coupling(st *State, name string, keys []*Term) *Term {
 		return dec("RemoteTokenMessenger", "DomainId", SBV(32), val(k))
 	case "nAtt":
 		return st.cnt["Attester/value/"]
+	case "attList":
+		p := BytesConst("Attester/value/")
+		k := App("rangeKey", SBytes, st.rawHas, p, keys[0])
+		return Ite(BVUlt(keys[0], st.cnt["Attester/value/"]), dec("Attester", "Attester", SBytes, Select(st.rawVal, k)), EmptyBytes)
 	}
 	panic("coupling: unknown component " + name)
 }
@@ -262,18 +268,26 @@ type preludeGroup struct {
 const arrS = "(Array (_ BitVec 64) (_ BitVec 8))"
 
 var preludeGroups = []preludeGroup{
-	{[]string{"canon"}, `(define-fun canon ((b Bytes)) Bool (forall ((i (_ BitVec 64))) (! (=> (bvuge i (blen b)) (= (select (barr b) i) #x00)) :pattern ((select (barr b) i)))))
+	{[]string{"canon"}, `(declare-fun canon (Bytes) Bool)
+(assert (forall ((b Bytes) (i (_ BitVec 64))) (! (=> (and (canon b) (bvuge i (blen b))) (= (select (barr b) i) #x00)) :pattern ((canon b) (select (barr b) i)))))
 `},
 	{[]string{"snap"}, `(declare-fun snap (` + arrS + ` (_ BitVec 64) (_ BitVec 64)) Bytes)
-(assert (forall ((a ` + arrS + `) (o (_ BitVec 64)) (l (_ BitVec 64))) (! (= (blen (snap a o l)) l) :pattern ((snap a o l)))))
+(assert (forall ((a ` + arrS + `) (o (_ BitVec 64)) (l (_ BitVec 64))) (! (and (= (blen (snap a o l)) l) (canon (snap a o l))) :pattern ((snap a o l)))))
 (assert (forall ((a ` + arrS + `) (o (_ BitVec 64)) (l (_ BitVec 64)) (i (_ BitVec 64))) (! (= (select (barr (snap a o l)) i) (ite (bvult i l) (select a (bvadd o i)) #x00)) :pattern ((select (barr (snap a o l)) i)))))
 `},
 	{[]string{"cat"}, `(declare-fun cat (Bytes Bytes) Bytes)
-(assert (forall ((a Bytes) (b Bytes)) (! (= (blen (cat a b)) (bvadd (blen a) (blen b))) :pattern ((cat a b)))))
+(assert (forall ((a Bytes) (b Bytes)) (! (and (= (blen (cat a b)) (bvadd (blen a) (blen b))) (canon (cat a b))) :pattern ((cat a b)))))
 (assert (forall ((a Bytes) (b Bytes) (i (_ BitVec 64))) (! (= (select (barr (cat a b)) i) (ite (bvult i (blen a)) (select (barr a) i) (ite (bvult i (bvadd (blen a) (blen b))) (select (barr b) (bvsub i (blen a))) #x00))) :pattern ((select (barr (cat a b)) i)))))
+(define-fun lenOK ((a Bytes)) Bool (bvule (blen a) #x0000100000000000))
+(assert (forall ((a Bytes) (b Bytes) (c Bytes) (d Bytes)) (! (=> (and (= (cat a c) (cat b d)) (= (blen a) (blen b)) (canon c) (canon d) (lenOK a) (lenOK b) (lenOK c) (lenOK d)) (= c d)) :pattern ((cat a c) (cat b d)))))
+(assert (forall ((a Bytes) (b Bytes) (c Bytes) (d Bytes)) (! (=> (and (= (cat a c) (cat b d)) (= (blen a) (blen b)) (canon a) (canon b) (lenOK a) (lenOK b) (lenOK c) (lenOK d)) (= a b)) :pattern ((cat a c) (cat b d)))))
+`},
+	{[]string{"memcpy"}, `(declare-fun memcpy (` + arrS + ` (_ BitVec 64) ` + arrS + ` (_ BitVec 64) (_ BitVec 64)) ` + arrS + `)
+(assert (forall ((d ` + arrS + `) (do (_ BitVec 64)) (s ` + arrS + `) (so (_ BitVec 64)) (n (_ BitVec 64)) (i (_ BitVec 64))) (! (= (select (memcpy d do s so n) i) (ite (and (bvuge i do) (bvult (bvsub i do) n)) (select s (bvadd so (bvsub i do))) (select d i))) :pattern ((select (memcpy d do s so n) i)))))
 `},
 	{[]string{"keccak"}, `(declare-fun keccak (Bytes) Bytes)
 (assert (forall ((b Bytes)) (! (and (= (blen (keccak b)) #x0000000000000020) (canon (keccak b))) :pattern ((keccak b)))))
+(assert (forall ((a Bytes) (b Bytes)) (! (=> (= (keccak a) (keccak b)) (= a b)) :pattern ((keccak a) (keccak b)))))
 `},
 	{[]string{"lower"}, `(declare-fun lower (Bytes) Bytes)
 (assert (forall ((b Bytes)) (! (and (= (lower (lower b)) (lower b)) (canon (lower b)) (bvule (blen (lower b)) #x0000020000000000)) :pattern ((lower b)))))
@@ -291,6 +305,10 @@ var preludeGroups = []preludeGroup{
 	{[]string{"bech32"}, `(declare-fun bech32 (Bytes Bytes) Bytes)
 (assert (forall ((p Bytes) (b Bytes)) (! (and (canon (bech32 p b)) (bvule (blen (bech32 p b)) #x0000020000000000)) :pattern ((bech32 p b)))))
 (assert (forall ((p Bytes) (a Bytes) (b Bytes)) (! (=> (= (bech32 p a) (bech32 p b)) (= a b)) :pattern ((bech32 p a) (bech32 p b)))))
+(declare-fun accBytes (Bytes) Bytes)
+(declare-fun validBech32 (Bytes) Bool)
+(declare-fun acctPrefix () Bytes)
+(assert (forall ((b Bytes)) (! (=> (and (canon b) (bvuge (blen b) #x0000000000000001) (bvule (blen b) #x00000000000000ff)) (and (validBech32 (bech32 acctPrefix b)) (= (accBytes (bech32 acctPrefix b)) b))) :pattern ((bech32 acctPrefix b)))))
 `},
 	{[]string{"hexenc"}, `(declare-fun hexenc (Bytes) Bytes)
 (assert (forall ((b Bytes)) (! (and (canon (hexenc b)) (= (blen (hexenc b)) (bvshl (blen b) #x0000000000000001))) :pattern ((hexenc b)))))
@@ -485,4 +503,102 @@ func usedSymbols(ts []*Term) map[string]bool {
 		rec(t)
 	}
 	return used
+}
+
+// canonFacts returns (canon t) for every mkb term in ts that is canonical by construction:
+// a constant length and a chain of stores at constant in-range indices over the all-zero array.
+func canonFacts(ts []*Term) []*Term {
+	var out []*Term
+	seen := map[*Term]bool{}
+	var rec func(t *Term)
+	rec = func(t *Term) {
+		if seen[t] {
+			return
+		}
+		seen[t] = true
+		if t.Op == "mkb" {
+			if n, ok := t.Args[1].U64(); ok {
+				a := t.Args[0]
+				good := true
+				for a.Op == "store" {
+					i, ok := a.Args[1].U64()
+					if !ok || i >= n {
+						good = false
+						break
+					}
+					a = a.Args[0]
+				}
+				if good && a == ZeroArr {
+					out = append(out, App("canon", SBool, t))
+				}
+			}
+		}
+		// first bytes of cat(P, x) for a constant-length P: instances of the defining axiom of cat
+		if t.Op == "app" && t.Name == "cat" {
+			if n, ok := Blen(t.Args[0]).U64(); ok {
+				if n > 8 {
+					n = 8
+				}
+				for i := uint64(0); i < n; i++ {
+					out = append(out, Eq(Select(Barr(t), BVU(64, i)), Select(Barr(t.Args[0]), BVU(64, i))))
+				}
+			}
+		}
+		for _, a := range t.Args {
+			rec(a)
+		}
+	}
+	for _, t := range ts {
+		rec(t)
+	}
+	return out
+}
+
+// extGoal rewrites positive occurrences of a byte-string equality X = Y whose sides are built from
+// cat / snap / memcpy / literal layouts into  |X| = |Y|  and  X[k] = Y[k]  for a fresh index k
+// (extensionality, with the universally quantified index skolemised because the occurrence is positive).
+// This puts the select terms in the goal that the defining axioms trigger on.
+func extGoal(t *Term, positive bool, ctr *int) *Term {
+	switch t.Op {
+	case "and":
+		args := make([]*Term, len(t.Args))
+		for i, a := range t.Args {
+			args[i] = extGoal(a, positive, ctr)
+		}
+		return And(args...)
+	case "or":
+		args := make([]*Term, len(t.Args))
+		for i, a := range t.Args {
+			args[i] = extGoal(a, positive, ctr)
+		}
+		return Or(args...)
+	case "not":
+		return Not(extGoal(t.Args[0], !positive, ctr))
+	case "=>":
+		return Implies(extGoal(t.Args[0], !positive, ctr), extGoal(t.Args[1], positive, ctr))
+	case "ite":
+		if t.Sort == SBool {
+			return Ite(t.Args[0], extGoal(t.Args[1], positive, ctr), extGoal(t.Args[2], positive, ctr))
+		}
+	case "=":
+		if positive && t.Args[0].Sort == SBytes && (structured(t.Args[0]) || structured(t.Args[1])) {
+			*ctr++
+			k := Var(fmt.Sprintf("ext$k%d", *ctr), SBV(64))
+			x, y := t.Args[0], t.Args[1]
+			return And(Eq(Blen(x), Blen(y)), Eq(Select(Barr(x), k), Select(Barr(y), k)))
+		}
+	}
+	return t
+}
+
+func structured(t *Term) bool {
+	switch t.Op {
+	case "mkb":
+		return true
+	case "app":
+		return t.Name == "cat" || t.Name == "snap"
+	case "ite":
+		return structured(t.Args[1]) || structured(t.Args[2])
+	}
+	return false
 }
